@@ -1175,6 +1175,11 @@ func (c *Compiler) writeCopy(node *node, l, r string, depth int) error {
 		c.wl(lb1, ":=make(", c.fmtT(node), ",", ln, ")")
 		c.wl(l, "=", c.fmtP(node, lb1, depth))
 		c.wl("}")
+		if node.ptr || depth == 0 {
+			c.wl("if ", c.fmtVd(node, l, depth), "==nil{")
+			c.wl(c.fmtVd(node, l, depth), "=make(", c.fmtT(node), ",", ln, ")")
+			c.wl("}")
+		}
 		rk := "rk" + strconv.Itoa(depth)
 		rv := "rv" + strconv.Itoa(depth)
 		c.wl("for ", rk, ",", rv, ":=range ", c.fmtVnb(node, r, depth), "{")
